@@ -6,6 +6,40 @@ var _ = gosym.Options{}
 
 var props = []PropSpec{
 	{
+		ID: "C11", Level: "other",
+		Explanation: "bounded symbolic execution of the whole pipeline on a generated nesting family (every nesting of the 11 construct kinds up to depth D around each of the 5 exits), with the exit condition and the failing index as solver variables; VM and tree interpreter outputs/outcomes are compared with a definitional reference interpreter over the parsed tree",
+		Harnesses: []HarnessSpec{
+			{Pkg: "homescript", Func: "VerifHarness_Nest", Quick: map[string]int{"mode": 1, "D": 2}, Thor: map[string]int{"mode": 1, "D": 3}, Require: []string{"ran", "accepted"},
+				What: "nesting family on the VM vs reference interpreter"},
+			{Pkg: "homescript", Func: "VerifHarness_Nest", Quick: map[string]int{"mode": 16, "D": 2}, Thor: map[string]int{"mode": 16, "D": 3}, Require: []string{"ran", "accepted"},
+				What: "nesting family on the tree interpreter vs reference interpreter"},
+		},
+	},
+	{
+		ID: "C01", Level: "other",
+		Explanation: "bounded symbolic execution of the whole pipeline (lexer, parser, analyzer, compiler, VM incl. its goroutine/channel hand-off) on program families whose operand values are unconstrained solver variables and whose operators/types are selectors; the VM's output is compared as SMT terms with a definitional reference",
+		Harnesses: []HarnessSpec{
+			{Pkg: "homescript", Func: "VerifHarness_Ops", Quick: map[string]int{"mode": 1}, Require: []string{"ran", "accepted"},
+				What: "println(L op R) for 19 infix operators x {int,float,bool,str}, operand values unconstrained, vs reference operator semantics (B.3)"},
+		},
+	},
+	{
+		ID: "C02", Level: "other",
+		Explanation: "bounded symbolic execution of compile+run on both back ends with every Go run-time failure (nil dereference, index, failed type assertion, integer division, negative shift, explicit panic, deadlock) as a path outcome; operand values are solver variables so the solver produces the crashing operands",
+		Harnesses: []HarnessSpec{
+			{Pkg: "homescript", Func: "VerifHarness_Ops", Quick: map[string]int{"mode": 2}, Require: []string{"ran", "accepted"},
+				What: "println(L op R) for every analyzer-accepted (operator, type) pair, operand values unconstrained: no Go panic on VM or tree interpreter"},
+		},
+	},
+	{
+		ID: "C04", Level: "translation_validation",
+		Explanation: "the same analysed program is run on the VM and on the tree-walking interpreter inside one symbolic path; outputs (strings with symbolic number pieces) and outcome classes are compared as SMT terms",
+		Harnesses: []HarnessSpec{
+			{Pkg: "homescript", Func: "VerifHarness_Ops", Quick: map[string]int{"mode": 4}, Require: []string{"ran", "accepted"},
+				What: "println(L op R) operator family: VM vs tree interpreter"},
+		},
+	},
+	{
 		ID: "C06", Level: "other",
 		Explanation: "differential bounded symbolic execution: the real lexer and a reference maximal-munch lexer written from grammar.ebnf run on the same window of unconstrained runes from an unconstrained start location; every rune comparison is decided by the SMT solver, token kind/value/span/file/cursor equality are asserted as terms",
 		Harnesses: []HarnessSpec{
